@@ -71,6 +71,8 @@ def const_expr(c):
             return inner  # promoted temporaries have no name of their own: show the value
         return ("cn", c["uneval"], inner)
     ty = c.get("ty", "?")
+    if "static" in c:
+        return ("cn", c["static"], ("c", ty, "static"))
     if "int" in c:
         return ("c", ty, int(c["int"]))
     if "tyconst" in c:
